@@ -87,6 +87,8 @@ def _run_one(h, twin, timeout_s):
 def run_harness(args):
     """worker entry: returns a JSON-able record"""
     h, tier = args
+    import logging
+    logging.disable(logging.CRITICAL)       # supp logs what it does not understand: not part of a verdict
     if isinstance(h, tuple):          # (property id, harness id): looked up in the forked registry (closures do not pickle)
         h = [x for x in REGISTRY[h[0]] if x.id == h[1]][0]
     timeout_s = 10 if tier == 'quick' else 60
